@@ -58,6 +58,7 @@ type labConn struct {
 	writes []writeRec
 	start  time.Time
 	peer   net.Addr
+	onWrite func(b []byte) // reaction of the scripted servers to a client transmission
 }
 
 func newLabConn() *labConn {
@@ -76,6 +77,9 @@ func (c *labConn) WriteTo(p []byte, addr net.Addr) (int, error) {
 	c.mu.Lock()
 	defer c.mu.Unlock()
 	c.writes = append(c.writes, writeRec{time.Since(c.start), addr.String(), append([]byte{}, p...)})
+	if c.onWrite != nil {
+		c.onWrite(append([]byte{}, p...))
+	}
 	return len(p), nil
 }
 func (c *labConn) Close() error                       { c.once.Do(func() { close(c.closed) }); return nil }
